@@ -470,6 +470,7 @@ func (g *jnGamePlay) AcceptPlayer(name string, id uuid.UUID, _ *user.PublicKey, 
 	wg.Add(1)
 	go func() { // reader: the play packets of the bot
 		defer wg.Done()
+		defer guard("c19")
 		for i := 0; i < len(sc.C2S); i++ {
 			var p pk.Packet
 			if err := conn.ReadPacket(&p); err != nil {
@@ -568,6 +569,7 @@ func jnRunScenario(sc *jnScenario, watchdog time.Duration) (evs []map[string]any
 		defer ln.Close()
 		addr = ln.Addr().String()
 		go func() {
+			defer guard("c19")
 			c, err := ln.Accept()
 			if err != nil {
 				run.serverFinished()
@@ -591,6 +593,7 @@ func jnRunScenario(sc *jnScenario, watchdog time.Duration) (evs []map[string]any
 	done := make(chan struct{})
 	go func() {
 		defer close(done)
+		defer guard("c19")
 		if sc.Intent == 1 {
 			jnDoPing(sc, log, addr)
 		} else {
@@ -695,6 +698,7 @@ func jnDoJoin(sc *jnScenario, log *jnLog, dialer *jnDialer, addr string) {
 	wg.Add(1)
 	go func() { // the application sends its play packets through the queue
 		defer wg.Done()
+		defer guard("c19")
 		for i, q := range sc.C2S {
 			data := jnPayload(sc.Seed, 'c', i+1, q.N)
 			log.add(map[string]any{"k": "psend", "side": "bot", "seq": i + 1, "id": q.ID, "n": len(data), "sha": jnSha(data)})
@@ -703,7 +707,14 @@ func jnDoJoin(sc *jnScenario, log *jnLog, dialer *jnDialer, addr string) {
 			}
 		}
 	}()
-	herr := c.HandleGame()
+	var herr error
+	if pan, where := catch(func() { herr = c.HandleGame() }); pan {
+		// a panic inside HandleGame is how it "returned": no handler's error (h, pid outside every table)
+		log.add(map[string]any{"k": "ret", "h": 9999, "pid": -9, "errtext": "panicked: " + where})
+		c.Close()
+		wg.Wait()
+		return
+	}
 	h, pid := 0, 0
 	var he *jnHandlerErr
 	if errors.As(herr, &he) {
